@@ -155,7 +155,7 @@ def run_check(pid, mod, tier, seed):
     results = solve.solve_obligations(obligations)
     wall_solve = time.time() - t0
     # ---- classify
-    discharged, refuted, undecided, errors, cover_bad = [], [], [], [], []
+    discharged, refuted, undecided, errors, cover_bad, finding_checks = [], [], [], [], [], []
     by_backend = {}
     solver_time = 0.0
     for o, r in zip(obligations, results):
@@ -163,6 +163,8 @@ def run_check(pid, mod, tier, seed):
         v = r["verdict"]
         if v == "error" or v == "disagree":
             errors.append((o, r))
+        elif o.kind == "finding":
+            finding_checks.append((o, r))
         elif o.expect_sat:
             if v == "unsat":
                 cover_bad.append((o, r))
@@ -179,12 +181,26 @@ def run_check(pid, mod, tier, seed):
         if s["ok"]:
             by_backend["syntactic"] = by_backend.get("syntactic", 0) + 1
     n_proof_obl = len([o for o in obligations if not o.expect_sat]) + len(syn_results)
+    n_proof_obl += 0
     n_discharged = len(discharged) + sum(1 for s in syn_results if s["ok"])
 
     # ---- violations: replay refuted obligations on the real code
     known = [k for k in load_known_findings() if k.get("property") == pid and k.get("status", "open") == "open"]
     violations = []
     known_hits = []
+    stale_findings = []
+    seen_f = set()
+    for o, r in finding_checks:
+        base = o.name[len("finding@"):]
+        kf = next((k for k in known if k.get("unit") == o.unit and k.get("obligation") == base), None)
+        if kf is None or kf.get("id") in seen_f:
+            continue
+        if r["verdict"] == "sat":
+            seen_f.add(kf.get("id"))
+            known_hits.append((kf, o, None))
+    for k in known:
+        if k.get("region_in_contract") and k.get("id") not in seen_f and any(o.unit == k.get("unit") for o, _r in finding_checks + discharged):
+            stale_findings.append(k.get("id"))
     os.makedirs(os.path.join(VERIF, "replays", pid), exist_ok=True)
     seen_names = set()
     for o, r in refuted:
@@ -238,6 +254,7 @@ def run_check(pid, mod, tier, seed):
         "trivially_true_obligations_not_counted": trivial,
         "refuted": len(refuted), "undecided": len(undecided), "checker_errors": len(errors),
         "known_findings_confirmed": [k.get("id") for k, _o, _r in known_hits],
+        "known_findings_not_reproduced_on_this_run": stale_findings,
         "solver_time_s": round(solver_time, 2),
         "slowest": [{"time_s": round(t, 2), "unit": u, "obligation": n, "backend": b} for t, u, n, b in slowest],
         "covers": {"sat": by_backend.get("cover-sat", 0), "unknown": by_backend.get("cover-unknown", 0), "unsat(vacuous!)": len(cover_bad)},
@@ -308,7 +325,7 @@ def dedupe(obs):
 
 def match_known(known, o):
     for k in known:
-        if k.get("unit") == o.unit and k.get("obligation") == o.name:
+        if k.get("unit") == o.unit and k.get("obligation") == o.name and not k.get("region_in_contract"):
             return k
     return None
 
